@@ -111,6 +111,7 @@ struct Fiber {
     long mutex_ops = 0;                // modelled mutex operations executed
     long blocking_ops = 0;             // contended lock / cv wait / yield executed
     long timed_failures = 0;           // timed lock attempts that gave up
+    long long waited_ns = 0;           // virtual time spent in timed waits that gave up (each consumes its full duration)
     char eh[32];
     void* asan_fake = nullptr;
     int prio = 0;
@@ -429,7 +430,7 @@ inline Fiber* alloc_fiber() {
     f->id = (int)idx; f->started = false; f->done = false; f->pend = P_NONE; f->pm = nullptr; f->pcv = nullptr;
     f->join_target = -1; f->join_status = 0; f->clock.clear(); f->yielded = false; f->frozen = false; f->freeze_at = -1;
     f->own_steps = 0; f->last_run = 0; f->patience = -1; f->timed = false; f->timeout_fired = false; f->notified = false; f->spurious_in = -1;
-    f->held = 0; f->mutex_ops = 0; f->blocking_ops = 0; f->timed_failures = 0; f->asan_fake = nullptr; f->prio = 0;
+    f->held = 0; f->mutex_ops = 0; f->blocking_ops = 0; f->timed_failures = 0; f->waited_ns = 0; f->asan_fake = nullptr; f->prio = 0;
     std::memset(f->eh, 0, sizeof f->eh);
 #ifdef VRT_ASAN
     __asan_unpoison_memory_region(f->stack, f->stack_size);
